@@ -219,7 +219,7 @@ func init() {
 			// "collides with the file scope OR with an already chosen name"
 			rp := r.Need(c.Fn(c.W, "gen.rewritePkgRefs"), "gen.rewritePkgRefs")
 			if rp != nil {
-				n := 0
+				n, nTS := 0, 0
 				for _, dc := range rp.callsTo(pathW + ".disambiguate") {
 					if inventorClass(c, rp, dc) != "copied-local" {
 						continue
@@ -228,6 +228,7 @@ func init() {
 					name := dc.Args[0]
 					gs, undo := rp.expandGuards(rp.Guards(dc))
 					hasOr, unknown := false, []string{}
+					tsDecl := false
 					for _, g := range gs {
 						if g.Kind != "bool" {
 							continue
@@ -280,13 +281,22 @@ func init() {
 						if v := rp.varOf(ex); v != nil && types.TypeString(v.Type(), nil) == "bool" {
 							continue // comma-ok flags of assertions / map lookups
 						}
+						if rp.isCall(ex, pathW+".isTypeSwitchVarDecl") != nil && !g.Neg {
+							tsDecl = true
+							continue // the declaration of a type switch's symbolic variable (it has no object): the second, position-keyed decision
+						}
 						unknown = append(unknown, exprShort(g.Expr))
 					}
 					undo()
-					r.Check(hasOr, "copied-local/rename-decision", dc.Pos(), "a local is renamed exactly when it collides with the file scope OR with an already chosen name")
-					r.Check(len(unknown) == 0, "copied-local/rename-decision-not-narrowed", dc.Pos(), "no further condition decides whether a colliding local is renamed (%v)", unknown)
+					suffix := ""
+					if tsDecl {
+						suffix = "/type-switch-variable"
+						nTS++
+					}
+					r.Check(hasOr, "copied-local/rename-decision"+suffix, dc.Pos(), "a local is renamed exactly when it collides with the file scope OR with an already chosen name")
+					r.Check(len(unknown) == 0, "copied-local/rename-decision-not-narrowed"+suffix, dc.Pos(), "no further condition decides whether a colliding local is renamed (%v)", unknown)
 				}
-				r.Check(n == 1, "copied-local/rename-decision-present", rp.Decl.Pos(), "rename decision found (%d)", n)
+				r.Check(n-nTS == 1 && nTS <= 1, "copied-local/rename-decision-present", rp.Decl.Pos(), "one rename decision for objects, at most one for type switch declarations (%d, %d)", n-nTS, nTS)
 				// the chosen-names predicate scans every chosen name
 				okIn := false
 				rp.inspect(rp.Decl.Body, func(nd ast.Node) bool {
